@@ -2,6 +2,7 @@
 check only reports violations tagged with its own id."""
 from __future__ import annotations
 
+import re
 from collections import defaultdict
 
 from .harness import DONE, QUIESCENT, STEPCAP
@@ -262,6 +263,21 @@ def o_retry(case, rec, ref, view: RunView):
             if sb[0] < ra[0]:
                 vs.append(Violation({'C12', 'C04'}, 'attempts_overlap', f'{n}: attempt {b} started before {a} failed',
                                     view.run))
+    # two-sided delay: every asyncio.sleep the engine's retry loop asked for lasts exactly the node's configured delay
+    # (virtual time only bounds the gap from below: a timer may legitimately fire late)
+    nodes_by_name = {n['name']: n for n in case['spec']['nodes']}
+    for r, node_id, dur in (rec.retry_timers or ()):
+        if r != view.run:
+            continue
+        name = re.split(r'[^0-9A-Za-z]+', str(node_id))[-1]
+        nd = nodes_by_name.get(name)
+        if nd is None:
+            continue
+        want = (nd.get('retry') or {}).get('delay') or 0
+        if abs(dur - want) > 1e-9:
+            vs.append(Violation({'C12'}, 'retry_delay_wrong',
+                                f'{name}: the retry loop slept {dur}s between attempts, configured delay={want}', view.run))
+            break
     refd = defaultdict(int)
     for n, kd in ref.defaults:
         refd[(n, kd)] += 1
